@@ -21,18 +21,54 @@ Qed.
 Definition witness4 (m : method) (d : nat) (k : kind) (t : nat) : list op :=
   [Construct m d true; Construct m d true; mutk k 0 t; mutk k 1 t].
 
-Lemma non_isolating_refuted_lemma cf m k : iso cf m k = false ->
-  forall d t, observe cf (run cf (witness4 m d k t)) m d k <> shipped m d k.
+Definition cfg_of (sp sw : xmode) (mp mw : imode) (hp hw : xmode) : cfg :=
+  {| c_store := fun _ k => sel k sp sw; c_missc := fun _ k => sel k mp mw; c_missn := fun _ _ => XRef;
+     c_hit := fun _ k => sel k hp hw; c_libcache := true |}.
+
+(* with cache=True only the store / miss / hit rows of the method in question matter *)
+Lemma construct_ang_ext cf cf' m d : (forall k, c_store cf m k = c_store cf' m k) ->
+  (forall k, c_missc cf m k = c_missc cf' m k) -> (forall k, c_hit cf m k = c_hit cf' m k) ->
+  forall s, construct_ang cf m d true s = construct_ang cf' m d true s.
 Proof.
-  intros I d t. unfold iso in I.
-  destruct (c_store cf m KP) as [|n1] eqn:E1; destruct (c_store cf m KW) as [|n2] eqn:E2;
-  destruct (c_missc cf m KP) as [|[|n3]] eqn:E3; destruct (c_missc cf m KW) as [|[|n4]] eqn:E4;
-  destruct (c_hit cf m KP) as [|n5] eqn:E5; destruct (c_hit cf m KW) as [|n6] eqn:E6;
-  destruct k; simpl in I; try discriminate I; clear I;
-  unfold observe, run, witness4;
-  repeat (first [ progress cbn -[shipped Nat.iter]
-                | progress unfold construct_ang, build1, mut
-                | progress rewrite ?E1, ?E2, ?E3, ?E4, ?E5, ?E6, ?method_eqb_refl, ?Nat.eqb_refl ]);
-  try apply (filled_ne_shipped 0); try apply filled_ne_shipped.
-  all: idtac "left".
+  intros A B C s. unfold construct_ang, build1. rewrite (A KP), (A KW), (B KP), (B KW), (C KP), (C KW). reflexivity.
+Qed.
+
+Lemma witness4_ext cf cf' m d k t : (forall k, c_store cf m k = c_store cf' m k) ->
+  (forall k, c_missc cf m k = c_missc cf' m k) -> (forall k, c_hit cf m k = c_hit cf' m k) ->
+  observe cf (run cf (witness4 m d k t)) m d k = observe cf' (run cf' (witness4 m d k t)) m d k.
+Proof.
+  intros A B C. unfold observe, run, witness4. cbn [fold_left step].
+  rewrite !(construct_ang_ext cf cf' m d A B C). destruct k; reflexivity.
+Qed.
+
+Ltac close_ne :=
+  let E := fresh in let E1 := fresh in
+  intro E; inversion E as [E1]; apply (f_equal base) in E1; cbn [base] in E1; rewrite ?base_iter in E1;
+  cbn [base] in E1; discriminate E1.
+
+Lemma cfg_of_refuted sp sw mp mw hp hw m k : iso (cfg_of sp sw mp mw hp hw) m k = false ->
+  forall t, observe (cfg_of sp sw mp mw hp hw) (run (cfg_of sp sw mp mw hp hw) (witness4 m 0 k t)) m 0 k <> shipped m 0 k.
+Proof.
+  intros I t. unfold iso in I. cbn [cfg_of c_hit c_missc c_store] in I.
+  destruct sp as [|n1], sw as [|n2], mp as [|[|n3]], mw as [|[|n4]], hp as [|n5], hw as [|n6];
+  destruct k; cbn in I; try discriminate I; clear I;
+  destruct m; cbv -[Nat.iter]; close_ne.
+Qed.
+
+Lemma non_isolating_refuted_lemma cf m k : iso cf m k = false ->
+  exists h d, length h = 4 /\ observe cf (run cf h) m d k <> shipped m d k.
+Proof.
+  intros I. exists (witness4 m 0 k 0), 0. split; [reflexivity|].
+  set (cf' := cfg_of (c_store cf m KP) (c_store cf m KW) (c_missc cf m KP) (c_missc cf m KW) (c_hit cf m KP) (c_hit cf m KW)).
+  rewrite (witness4_ext cf cf' m 0 k 0); try (intros []; reflexivity).
+  apply cfg_of_refuted. unfold iso in *. destruct k; exact I.
+Qed.
+
+Lemma refinement_iff_isolating_lemma cf m k : values_ok cf m k = true ->
+  ((forall h d, observe cf (run cf h) m d k = shipped m d k) <-> iso cf m k = true).
+Proof.
+  intros V. split.
+  - intros H. destruct (iso cf m k) eqn:I; auto.
+    destruct (non_isolating_refuted_lemma cf m k I) as (h & d & _ & N). exfalso. apply N, H.
+  - intros I. now apply observation_refines_spec_lemma.
 Qed.
